@@ -159,7 +159,12 @@ type gcSched struct {
 	onGC   func(kind string, pt int)
 	inGC   bool
 	points Counter
+	nfired int
 }
+
+// gcMaxPerRun bounds the collections of one run (a plan with "every point" on
+// a 1-byte-chunk reader would otherwise run tens of thousands of them).
+const gcMaxPerRun = 600
 
 var curGC *gcSched
 
@@ -176,8 +181,12 @@ func gcPoint(kind string) {
 	if !s.doGC {
 		return
 	}
-	if s.at[s.pt] || (s.every > 0 && s.pt%s.every == 0) {
+	if (s.at[s.pt] || (s.every > 0 && s.pt%s.every == 0)) && s.nfired < gcMaxPerRun {
 		s.inGC = true
+		s.nfired++
+		if s.nfired%40 == 0 {
+			fmt.Fprintf(os.Stderr, "@@GC %d\n", s.nfired) // progress for the controller's per-step CPU budget
+		}
 		s.fired.Inc("GC(" + kind + ")")
 		runtime.GC()
 		for i := 0; i < 8; i++ {
